@@ -131,7 +131,7 @@ def split_by_construction(seq, st, prefix_lines, replace):
 
 def bounds(tier, seed):
     return {"tokens": list(TOKENS) + ["X (multi-line-only styles)", "G (5000-character line), U (one-line header), Q (code line quoting U's text): 16 fixed sequences per style"], "max_len": {"python,c": 3 if tier == "quick" else 4, "other styles": 2 if tier == "quick" else 3},
-            "styles": list(all_styles(tier)), "prefixes": ["none", "BOM", "shebang (styles that define one)", "BOM+shebang"],
+            "styles": list(all_styles(tier)), "prefixes": ["none", "BOM", "shebang (styles that define one)", "BOM+shebang", "'#!' interpreter line (every style, 8 fixed sequences)"],
             "line_endings": ["LF", "CRLF", "CR"], "final_newline": [True, False], "modes": ["replace", "--no-replace"],
             "seed_slice": "sequences of the next length starting with TOKENS[seed % 10] for python" if tier == "quick" else None}
 
@@ -153,6 +153,11 @@ def cases(tier, seed):
                     for final in (True, False):
                         for replace in (True, False):
                             yield {"style": name, "seq": s, "prefix": prefix, "ending": ending, "final": final, "replace": replace}
+    for name in all_styles("thorough"):
+        for s in ("", "C", "H", "CH", "HC", "BC", "O", "OC"):
+            for ending in ("\n", "\r\n"):
+                for replace in (True, False):
+                    yield {"style": name, "seq": s, "prefix": "hashbang", "ending": ending, "final": True, "replace": replace}
     for name in all_styles(tier):
         for s in ("G", "GH", "HG", "GC", "CG", "OGH", "GBH", "U", "QU", "QCU", "QBU", "CQU", "QUC", "UQ", "QQU", "QOU"):
             for prefix in ("none", "bom", "shebang"):
@@ -188,6 +193,9 @@ def evaluate(c) -> R:
         # two first-line declarations of different kinds, in the order the style lists them
         prefix_lines = [sheb[0] + " first declaration"]
         second_line = [sheb[1] + " second declaration"]
+    elif c["prefix"] == "hashbang":
+        # '#!' starts an interpreter line whatever the language's comment syntax is (Lua, Haskell, Lisp, AppleScript ... scripts)
+        prefix_lines = ["#!/usr/bin/env interpreter --flag"]
     elif "shebang" in c["prefix"]:
         if not sheb:
             r.outcome, r.nontrivial = "n/a", False
